@@ -6,8 +6,11 @@ import (
 	"encoding/json"
 	"fmt"
 	"os"
+	"runtime"
+	"sync/atomic"
 	"testing"
 
+	"github.com/welllog/golib/ringz"
 	"pgregory.net/rapid"
 
 	"verif/harness/internal/conc"
@@ -84,6 +87,150 @@ func init() {
 		}
 		for i := 0; i < 400; i++ {
 			if err := runRaced(c, &pb.Rec{}); err != nil {
+				return err
+			}
+		}
+		return nil
+	})
+}
+
+// ---- producer/consumer loops on real goroutines (race detector + MPMC conservation/order oracle)
+
+type loopCase struct {
+	Req       int
+	Producers int
+	Consumers int
+	PerProd   int
+	Waits     bool // use PushWait(-1)/PopWait(-1) instead of spinning on Push/Pop in the harness
+}
+
+func runLoops(c loopCase) error {
+	if c.Req < 1 || c.Req > 64 || c.Producers < 1 || c.Producers > 8 || c.Consumers < 1 || c.Consumers > 8 || c.PerProd < 1 || c.PerProd > 100000 {
+		return nil
+	}
+	q := ringz.NewSync[int](c.Req)
+	capv := q.Cap()
+	total := c.Producers * c.PerProd
+	var consumed int64
+	got := make([][]int, c.Consumers)
+	var lenErr atomic.Value
+	stop := make(chan struct{})
+	var bodies []func()
+	for p := 0; p < c.Producers; p++ {
+		p := p
+		bodies = append(bodies, func() {
+			for i := 0; i < c.PerProd; i++ {
+				v := p*1000000 + i
+				if c.Waits {
+					q.PushWait(v, -1)
+					continue
+				}
+				for !q.Push(v) {
+					runtime.Gosched()
+				}
+			}
+		})
+	}
+	for k := 0; k < c.Consumers; k++ {
+		k := k
+		bodies = append(bodies, func() {
+			for atomic.LoadInt64(&consumed) < int64(total) {
+				v, ok := q.Pop()
+				if !ok {
+					runtime.Gosched()
+					continue
+				}
+				got[k] = append(got[k], v)
+				atomic.AddInt64(&consumed, 1)
+			}
+		})
+	}
+	// observer: Len always within [0, Cap]
+	obsDone := make(chan struct{})
+	go func() {
+		defer close(obsDone)
+		for {
+			select {
+			case <-stop:
+				return
+			default:
+			}
+			if l := q.Len(); l < 0 || l > capv {
+				lenErr.CompareAndSwap(nil, fmt.Sprintf("Len() = %d outside [0, %d] during the run", l, capv))
+			}
+			runtime.Gosched()
+		}
+	}()
+	panics := conc.RunRaced(bodies)
+	close(stop)
+	<-obsDone
+	if len(panics) > 0 {
+		return fmt.Errorf("panic in a goroutine: %v", panics[0])
+	}
+	if e := lenErr.Load(); e != nil {
+		return fmt.Errorf("%s", e)
+	}
+	seen := map[int]bool{}
+	for k, vs := range got {
+		last := map[int]int{}
+		for _, v := range vs {
+			if seen[v] {
+				return fmt.Errorf("value %d popped twice", v)
+			}
+			seen[v] = true
+			p, i := v/1000000, v%1000000
+			if p < 0 || p >= c.Producers || i >= c.PerProd {
+				return fmt.Errorf("invented value %d", v)
+			}
+			if prev, ok := last[p]; ok && i < prev {
+				return fmt.Errorf("consumer %d received value %d of producer %d after value %d: FIFO order violated", k, i, p, prev)
+			}
+			last[p] = i
+		}
+	}
+	if len(seen) != total {
+		return fmt.Errorf("%d of %d values came out (lost values)", len(seen), total)
+	}
+	if q.Len() != 0 || !q.IsEmpty() || q.IsFull() {
+		return fmt.Errorf("after the run: Len=%d IsEmpty=%v IsFull=%v", q.Len(), q.IsEmpty(), q.IsFull())
+	}
+	return nil
+}
+
+func TestRacedLoops(t *testing.T) {
+	st := pb.Stats("syncring_raced_loops")
+	st.SetRule("1-4 producers x 200-3000 values and 1-4 consumers spinning on a SyncRing of requested capacity 1..9 on real goroutines under the race detector, with an observer calling Len; oracle: every value comes out exactly once, per consumer the values of one producer arrive in increasing order, Len in [0,Cap] throughout, ring empty afterwards; every drawn configuration is a case, non-trivial = >= 2 producers and >= 2 consumers")
+	gen := rapid.Custom(func(t *rapid.T) loopCase {
+		return loopCase{Req: rapid.IntRange(1, 9).Draw(t, "req"), Producers: rapid.IntRange(1, 4).Draw(t, "p"), Consumers: rapid.IntRange(1, 4).Draw(t, "c"),
+			PerProd: rapid.IntRange(200, 3000).Draw(t, "n"), Waits: rapid.Bool().Draw(t, "waits")}
+	})
+	n := pb.Scaled(40)
+	for i := 0; i < n; i++ {
+		c := gen.Example(int(pb.Seed("loops")%1000003) + i)
+		js, _ := json.Marshal(c)
+		if cur := os.Getenv("VERIF_CURRENT_CASE"); cur != "" {
+			b, _ := json.Marshal(pb.ReplayFile{Property: os.Getenv("VERIF_PROPERTY"), Prop: "syncring_raced_loops", Kind: "race-detector", Mode: "race", Case: js})
+			os.WriteFile(cur, b, 0o644)
+		}
+		if err := runLoops(c); err != nil {
+			st.Violation("raced-loops", js, err)
+			t.Fatalf("loops %s: %v", js, err)
+		}
+		rec := &pb.Rec{}
+		rec.NonTrivialIf(c.Producers >= 2 && c.Consumers >= 2)
+		rec.ClassIf(c.Producers >= 2 && c.Consumers >= 2, "MPMC")
+		st.Case(js, rec)
+	}
+}
+
+func init() {
+	pb.RegisterReplay("syncring_raced_loops", func(raw json.RawMessage) error {
+		var c loopCase
+		if err := json.Unmarshal(raw, &c); err != nil {
+			return fmt.Errorf("BADREPLAY: %v", err)
+		}
+		for i := 0; i < 20; i++ {
+			if err := runLoops(c); err != nil {
 				return err
 			}
 		}
